@@ -34,7 +34,7 @@ def enumerate_cases(scratch_dir: Path):
     if bad:
         raise tlc.TlcFailure(f"ParamWire.tla: {bad} violated on the model\n{res.counterexample[:1500]}")
     cases = [c for c in res.printed if isinstance(c, dict) and "knownRejected" in c]
-    if len(cases) < 1600:
+    if len(cases) < 1700:
         raise tlc.TlcFailure(f"ParamWireMC emitted only {len(cases)} cases")
     return res, cases
 
@@ -45,6 +45,11 @@ def build_doc(params: list[dict]) -> tuple[dict, dict]:
         sch = KIND_SCHEMA[p["kind"]]
         if p["nul"]:
             sch = {"oneOf": [sch, {"type": "null"}]}
+        if p["loc"] == "json":
+            paths[f"/o{n}"] = {"post": {"operationId": f"o{n}", "tags": ["t"], "requestBody": {"required": True, "content": {"application/json": {"schema": sch}}},
+                                        "responses": {"204": {"description": "d"}}}}
+            mods[pkey(p)] = f"t.o{n}"
+            continue
         if p["loc"] in BODY_CT:
             # a property `p` of the body model (next to an ordinary property `z`)
             schemas[f"B{n}"] = {"type": "object", "properties": {"p": sch, "z": S}, **({"required": ["p"]} if p["req"] else {})}
